@@ -328,6 +328,11 @@ def join(a: Val, b: Val) -> Val:
                 tags[k] = join(v, o) if (v is not None and o is not None) else (v if o is None else o)
             elif b.tags[k] == v:
                 tags[k] = v
+    # rows of a zero-initialised buffer that is filled with probability vectors (every row is written: the
+    # allocation counts sum to the number of rows — stated assumption)
+    for x, y in ((a, b), (b, a)):
+        if x.tags.get("simplex_rows") and y.tags.get("zero_init") and not y.tags.get("simplex_rows"):
+            tags["simplex_rows"] = True
     return Val(const, a.data | b.data, a.shp | b.shp, a.ctrl | b.ctrl, join_shape(a.shape, b.shape), u,
                a.frame if a.frame == b.frame else None, join_sign(a.sign, b.sign),
                join_fresh(a.fresh, b.fresh), a.refs | b.refs, items,
